@@ -190,3 +190,93 @@ def compare(model, real, front=None):
         return "differ", dict(what="Front syntax of the rewritten tree differs (toP / pexp)", at=d[0] if d else None,
                               model=d[1] if d else None, code=d[2] if d else None)
     return "agree-body", None
+
+
+# ----------------------------------------------------------------------------- rewrite forms (correspondence only)
+# One program per rewriting rule / quirk / exception of the pass.  They go through the ast2ast correspondence only:
+# several are rejected later by translate_ast (an `if` nested in the body of an `if` reads `_iftarg<n>` before it is
+# defined), and `for-else` is accepted although the `else` branch is dropped (reported as a candidate defect in
+# docs/notes/C01.md; the oracle stream does not contain it).
+H2 = "def f(a: bool, b: bool, x: Qint[2], y: Qint[2]) -> Qint[2]:\n"
+A2A_FORMS = [
+    ("if-in-if-body", H2 + "\tr = x\n\tif a:\n\t\tr = r + 1\n\t\tif b:\n\t\t\tr = 3\n\treturn r"),
+    ("if-in-if-body-else", H2 + "\tr = x\n\tif a:\n\t\tif b:\n\t\t\tr = 3\n\t\telse:\n\t\t\tr = 1\n\telse:\n\t\tr = 2\n\treturn r"),
+    ("if-in-else-deep", H2 + "\tr = x\n\tif a:\n\t\tr = 1\n\telse:\n\t\tif b:\n\t\t\tr = 2\n\t\telse:\n\t\t\tif x > y:\n\t\t\t\tr = 3\n\t\t\telse:\n\t\t\t\tr = r + 1\n\treturn r"),
+    ("if-return", H2 + "\tif a:\n\t\treturn x\n\treturn y"),
+    ("if-expr-stmt", H2 + "\tr = x\n\tif a:\n\t\tr\n\treturn r"),
+    ("if-ann", H2 + "\tr = x\n\tif a:\n\t\tr: Qint[2] = y\n\treturn r"),
+    ("if-tuple-target", H2 + "\tr = x\n\ts = y\n\tif a:\n\t\tr, s = s, r\n\treturn r"),
+    ("if-chained", H2 + "\tr = x\n\ts = y\n\tif a:\n\t\tr = s = y\n\treturn r"),
+    ("if-aug", H2 + "\tr = x\n\tif a:\n\t\tr += y\n\telse:\n\t\tr -= 1\n\treturn r"),
+    ("if-empty-after-fold", H2 + "\tr = x\n\tif a:\n\t\tif False:\n\t\t\tr = 1\n\treturn r"),
+    ("if-const-test", H2 + "\tr = x\n\tif 1 < 2:\n\t\tr = y\n\telse:\n\t\tr = 0\n\treturn r"),
+    ("if-const-test-else", H2 + "\tr = x\n\tif not True:\n\t\tr = y\n\telse:\n\t\tr = 0\n\treturn r"),
+    ("if-dunder-known", H2 + "\t__r = x\n\tif a:\n\t\t__r = y\n\treturn x"),
+    ("if-new-var", H2 + "\tif a:\n\t\tr = y\n\treturn x"),
+    ("if-selfref-unknown", H2 + "\tif a:\n\t\tq = q + 1\n\treturn x"),
+    ("for-tuple", H2 + "\tr = x\n\tfor i in (1, 2, 3):\n\t\tr = r + i\n\treturn r"),
+    ("for-tuple-bools", H2 + "\tr = a\n\tfor v in (True, False):\n\t\tr = r ^ v\n\treturn x"),
+    ("for-list", H2 + "\tr = x\n\tfor i in [3, 1]:\n\t\tr ^= i\n\treturn r"),
+    ("for-range3", H2 + "\tr = x\n\tfor i in range(3, 0, -1):\n\t\tr = r + i\n\treturn r"),
+    ("for-range-fold", H2 + "\tr = x\n\tfor i in range(1, 1 + 2):\n\t\tr = r + (i + 1) * 2\n\treturn r"),
+    ("for-range-empty", H2 + "\tr = x\n\tfor i in range(0):\n\t\tr = r + i\n\treturn r"),
+    ("for-range-var", H2 + "\tr = x\n\tn = 2\n\tfor i in range(n):\n\t\tr = r + i\n\treturn r"),
+    ("for-range-noargs", H2 + "\tr = x\n\tfor i in range():\n\t\tr = r + i\n\treturn r"),
+    ("for-range-step0", H2 + "\tr = x\n\tfor i in range(0, 2, 0):\n\t\tr = r + i\n\treturn r"),
+    ("for-range-bool", H2 + "\tr = x\n\tfor i in range(True, 3):\n\t\tr = r + i\n\treturn r"),
+    ("for-nested", H2 + "\tr = x\n\tfor i in (1, 2):\n\t\tfor j in range(i):\n\t\t\tr += j\n\treturn r"),
+    ("for-shadow", H2 + "\tr = x\n\tfor i in range(2):\n\t\tfor i in range(2):\n\t\t\tr += i\n\treturn r"),
+    ("for-assign-loopvar", H2 + "\tr = x\n\tfor i in range(2):\n\t\ti = i + 1\n\t\tr += i\n\treturn r"),
+    ("for-aug-loopvar", H2 + "\tr = x\n\tfor i in range(2):\n\t\ti += 1\n\treturn r"),
+    ("for-index", "def f(x: Qint[4]) -> Qint[4]:\n\tr = 0\n\tfor i in range(4):\n\t\tr = r + (1 if x[i] else 0)\n\treturn r"),
+    ("for-index-expr", "def f(x: Qint[4]) -> bool:\n\tr = False\n\tfor i in range(3):\n\t\tr = r ^ x[i + 1]\n\treturn r"),
+    ("for-if", H2 + "\tr = x\n\tfor i in range(3):\n\t\tif i == 1:\n\t\t\tr = r + 1\n\t\telif x > i:\n\t\t\tr = r ^ 1\n\treturn r"),
+    ("if-for", H2 + "\tr = x\n\ti = 0\n\tif a:\n\t\tfor i in range(2):\n\t\t\tr = r + i\n\treturn r"),
+    ("for-else", H2 + "\tr = x\n\tfor i in [1, 2]:\n\t\tr += i\n\telse:\n\t\tr = 0\n\treturn r"),
+    ("for-name-arg", "def f(t: Tuple[Qint[2], Qint[2]], q: Qlist[bool, 3]) -> Qint[2]:\n\tr = 0\n\tfor v in t:\n\t\tr += v\n\tfor w in q:\n\t\tr = r + 1 if w else r\n\treturn r"),
+    ("for-name-copy", "def f(t: Tuple[Qint[2], Qint[2]]) -> Qint[2]:\n\tu = t\n\tr = 0\n\tfor v in u:\n\t\tr += v\n\treturn r"),
+    ("for-name-const", H2 + "\tu = (1, 2)\n\tr = x\n\tfor v in u:\n\t\tr += v\n\treturn r"),
+    ("for-name-const-list", H2 + "\tu = [1, 2]\n\tr = x\n\tfor v in u:\n\t\tr += v\n\treturn r"),
+    ("for-name-rebound", "def f(t: Tuple[Qint[2], Qint[2]]) -> Qint[2]:\n\tt = (1, 2, 3)\n\tr = 0\n\tfor v in t:\n\t\tr += v\n\treturn r"),
+    ("for-name-scalar", H2 + "\tr = x\n\tfor v in y:\n\t\tr += v\n\treturn r"),
+    ("for-name-matrix", "def f(m: Qmatrix[bool, 2, 3]) -> Qint[2]:\n\tr = 0\n\tfor row in m:\n\t\tr = r + 1\n\treturn r"),
+    ("for-tuple-names", H2 + "\tr = x\n\tfor v in (x, y):\n\t\tr += v\n\treturn r"),
+    ("for-tuple-subs", "def f(t: Tuple[Qint[2], Qint[2]]) -> Qint[2]:\n\tr = 0\n\tfor v in (t[1], t[0]):\n\t\tr += v\n\treturn r"),
+    ("for-target-tuple", H2 + "\tr = x\n\tfor i, j in ((1, 2),):\n\t\tr += i\n\treturn r"),
+    ("for-return", H2 + "\tfor i in range(2):\n\t\treturn x\n\treturn y"),
+    ("ann", H2 + "\tr: Qint[2] = x\n\tr: Qint[2] = r + 1\n\treturn r"),
+    ("ann-bool", H2 + "\tc: bool = a\n\tc: bool = not c\n\treturn x if c else y"),
+    ("ann-novalue", H2 + "\tr: Qint[2]\n\tr = x\n\treturn r"),
+    ("aug-all", H2 + "\tr = x\n\tr += y\n\tr -= 1\n\tr *= 2\n\tr ^= y\n\tr &= 3\n\tr |= 1\n\tr <<= 1\n\tr >>= 1\n\tr %= 4\n\treturn r"),
+    ("aug-pow", H2 + "\tr = x\n\tr **= 2\n\treturn r"),
+    ("aug-subscript-target", "def f(t: Tuple[bool, bool]) -> bool:\n\tt[0] ^= True\n\treturn t[0]"),
+    ("aug-dunder", H2 + "\t__r = x\n\t__r += 1\n\treturn x"),
+    ("assign-dunder-read", H2 + "\tr = __x\n\treturn r"),
+    ("assign-selfref-arg", H2 + "\tx = x + y\n\tx = x\n\tx = (x)\n\ta = not a\n\treturn x if a else y"),
+    ("assign-selfref-new", H2 + "\tq = 1\n\tq = q + x\n\treturn q"),
+    ("assign-selfref-const", H2 + "\tx = 1\n\treturn x"),
+    ("assign-subscript-target", "def f(t: Tuple[bool, bool]) -> bool:\n\tt[0] = True\n\treturn t[0]"),
+    ("assign-tuple-value", H2 + "\tt = (x, y)\n\tt = (t[1], t[0])\n\treturn t[0]"),
+    ("assign-list-value", H2 + "\tt = [x, y]\n\treturn t[1]"),
+    ("multitarget", H2 + "\tp, q = x, y\n\t[p, q] = q, p\n\tt = (p, q)\n\tp, q = t\n\treturn p - q"),
+    ("multitarget-nested", H2 + "\t(p, (q, r)) = (x, (y, x))\n\treturn p"),
+    ("multitarget-in-if", H2 + "\tp = x\n\tq = y\n\tif a:\n\t\tp, q = q, p\n\treturn p"),
+    ("pow", H2 + "\treturn x ** 3 + y ** 1 + (x ** 0) + 2 ** 3"),
+    ("pow-neg", H2 + "\treturn x ** -1"),
+    ("pow-bool", H2 + "\treturn x ** True + y ** False"),
+    ("fold", H2 + "\treturn x + (3 * 2 - 1) + (7 // 2) + (7 % 4) + (1 << 3) + (9 >> 1) + (6 & 3) + (6 | 3) + (6 ^ 3) + (-5 // 2) + (-5 % 3)"),
+    ("fold-bools", H2 + "\tc = (True & False) | (True ^ True)\n\td = True + True\n\treturn x + d if c else y"),
+    ("fold-cmp", H2 + "\treturn x if (1 < 2) == True else y"),
+    ("fold-unary", H2 + "\treturn x + (-1) + (+2) + (~0) + (3 if not 0 else 4)"),
+    ("fold-div0", H2 + "\treturn x + 1 // 0"),
+    ("fold-mod0", H2 + "\treturn x + 1 % 0"),
+    ("fold-negshift", H2 + "\treturn x + (1 << -1)"),
+    ("fold-ifexp", H2 + "\treturn (x if True else y) + (x if 0 else y)"),
+    ("fold-boolop", H2 + "\treturn x if (True and a) else y"),
+    ("reserved-iftarg", H2 + "\t_iftarg2 = a\n\treturn x"),
+    ("reserved-temptup", H2 + "\t_temptup = a\n\treturn x"),
+    ("reserved-arg", "def f(_iftarg9: bool, x: Qint[2]) -> Qint[2]:\n\treturn x"),
+    ("bare-return", H2 + "\treturn"),
+    ("expr-stmt", H2 + "\tx + 1\n\treturn x"),
+    ("pass", H2 + "\tpass\n\treturn x"),
+]
